@@ -37,9 +37,14 @@ def match_starts(pat, wd):
     return [i for i in range(n) if rx.match(d, i, i + n) is not None]
 
 
+PENDING = []       # inconsistencies met by `evaluate`; drained into failures by Ctx.case / Ctx.drain
+
+
 def evaluate(cls, wd, feats=()):
     """(verdict, up, down, target, placeholder, target-features) on the real code; verdict in
-    valid / invalid / illegal / exc:<name>"""
+    valid / invalid / illegal / exc:<name>.  The same entity object is then asked again: its answers must not
+    drift (an object that says invalid and then hands out overhangs, or whose second target differs from its
+    first, is recorded in PENDING and becomes a failure of the case being evaluated)."""
     rec = impl.mk_record(CRec(0, wd, list(feats), []))
     ent = cls(rec)
     try:
@@ -49,17 +54,40 @@ def evaluate(cls, wd, feats=()):
     if not ok:
         try:
             ent.overhang_start()
-            return ("invalid-but-overhang-returned",)
+            res = ("invalid-but-overhang-returned",)
+            PENDING.append("{} on {!r}: is_valid() is False but overhang_start() returns a value".format(
+                cls.__name__, wd))
         except boot.errors.IllegalSite:
-            return ("illegal",)
+            res = ("illegal",)
         except boot.errors.InvalidSequence:
-            return ("invalid",)
+            res = ("invalid",)
         except Exception as e:  # noqa
-            return ("exc:" + type(e).__name__,)
-    t = ent.target_sequence()
-    ph = str(ent.placeholder_sequence().seq) if isinstance(ent, boot.AbstractVector) else None
-    return ("valid", str(ent.overhang_start()), str(ent.overhang_end()), str(t.seq), ph,
-            [impl.canon_feature(f) for f in t.features])
+            res = ("exc:" + type(e).__name__,)
+        try:
+            again = ent.is_valid()
+        except Exception as e:  # noqa
+            again = "raises " + type(e).__name__
+        if again is not False:
+            PENDING.append("{} on {!r}: is_valid() answers False, then {} when the same object is asked again".format(
+                cls.__name__, wd, again))
+        return res
+
+    def look():
+        t = ent.target_sequence()
+        ph = str(ent.placeholder_sequence().seq) if isinstance(ent, boot.AbstractVector) else None
+        return ("valid" if ent.is_valid() else "invalid", str(ent.overhang_start()), str(ent.overhang_end()),
+                str(t.seq), ph, [impl.canon_feature(f) for f in t.features])
+    res = look()
+    try:
+        res2 = look()
+    except Exception as e:  # noqa
+        res2 = ("raises " + type(e).__name__,)
+    if res2 != res:
+        i = next((j for j in range(min(len(res), len(res2))) if res[j] != res2[j]), 0)
+        what = ["verdict", "upstream overhang", "downstream overhang", "target", "placeholder", "target features"][i]
+        PENDING.append("{} on {!r}: asking the same object twice gives a different {}: {!r} then {!r}".format(
+            cls.__name__, wd, what, res[i] if i < len(res) else None, res2[i] if i < len(res2) else None))
+    return res
 
 
 def inner_site_instance(rng, cls, lower=None):
